@@ -99,6 +99,19 @@ CLAIMED = {
     text="For the crash images of the C01 workloads the recovery run itself is recorded through the same disk wrapper and crashed again after each of its own I/O calls (including 'recovery repeated from the same image'); every nested image is restarted and read back (thorough: nesting depth 2); TLC requires each nested observation to lie in the Acceptable set frozen at the first crash: nothing committed is lost, nothing uncommitted appears, restart succeeds and accepts statements.",
     design_ref="DESIGN.md section 5 C20", note=COMMON,
     technique="TLA+ contract spec as oracle; nested crash-point enumeration inside the recovery run, judged by TLC trace validation"),
+
+ "C04": dict(
+    category="model_checking",
+    text="TxnModel is the oracle (a completed statement returns exactly the answer over committed data (+) its own transaction's earlier writes, or its transaction aborts). For seeded pairs of 1-3-statement programs over point / range / sequential reads, inserts, deletes, in-place, key-changing and relocating updates on 3 rows, EVERY statement-level interleaving (incl. commit/abort positions) is executed on a fresh engine by one goroutine, plus sampled three-transaction schedules; after each schedule the committed table is read back through the scan and the index path. TLC validates every answer and classifies differences (dirty / hidden / wrong / final).",
+    design_ref="DESIGN.md section 5 C04",
+    note="Trusted: TLC, the schedule driver. Statement granularity (goroutine-level interleavings inside a statement are not explored). One open known finding (key-changing update hides the committed row from index lookups of other transactions).",
+    technique="TLA+ contract spec as oracle; exhaustive statement-level interleavings of program pairs executed on the real engine, judged by TLC trace validation"),
+ "C05": dict(
+    category="model_checking",
+    text="Same schedules as C04; TxnModel maintains, per schedule, which foreign row versions each transaction was shown and which it overwrote (every write stores a fresh version), and at the end of each schedule TLC checks that the dependency graph (wr, ww, rw edges; versions installed at commit) over the committed transactions is acyclic - no lost update, no unrepeatable read, no write skew on rows both read.",
+    design_ref="DESIGN.md section 5 C05",
+    note="Trusted: TLC, the schedule driver. Statement granularity; phantoms excluded as documented by the property. Shares the open known finding of C04.",
+    technique="TLA+ contract spec with ghost dependency graph; acyclicity checked by TLC on every recorded schedule"),
 }
 
 NOT_APPLICABLE = {
